@@ -58,6 +58,22 @@ func evolvePair(r *gen.Rand, c *gen.EvolveCfg) (w, t *schema.Struct, class strin
 		}
 		return w, gen.Zoo(&zoo.NodeOld{}), "zoo:Node->NodeOld"
 	}
+	if r.Chance(1, 10) {
+		// by-value struct values/elements with fixed-layout (scalar-only) fields, read with the
+		// writer's own schema: a foreign writer omits some of them in some entries only
+		inner := &schema.Struct{UnknownIdx: -1}
+		for i, n := 0, 1+r.Intn(4); i < n; i++ {
+			inner.Fields = append(inner.Fields, &schema.Field{ID: uint16(1 + i), Req: schema.Req(r.Intn(2)), T: gen.FormType(r, gen.ValForms[r.Intn(7)], gen.DefaultTypeCfg(), 2)})
+		}
+		inner.Build()
+		o := &schema.Struct{UnknownIdx: -1, Fields: []*schema.Field{
+			{ID: 1, Req: schema.Default, T: schema.MapOf(gen.FormType(r, gen.KeyForms[r.Intn(8)], gen.DefaultTypeCfg(), 2), schema.StructOf(inner, false))},
+			{ID: 2, Req: schema.Default, T: schema.ListOf(schema.StructOf(inner, false))},
+			{ID: 3, Req: schema.Optional, T: schema.MapOf(schema.Scalar(schema.String), schema.StructOf(inner, false))},
+		}}
+		o.Build()
+		return o, o, "same-schema-byvalue-fixed-layout"
+	}
 	tc := gen.DefaultTypeCfg()
 	tc.BigIDs = r.Chance(1, 6)
 	tc.Extras = false
